@@ -466,8 +466,11 @@ class Monitor:
                     self.add("C02", "lost-step", f"{sid} lost demanded step(s) {lost[:3]}", sim=sid)
                 if self.cur.get(sid):
                     self.add("C05", "in-flight-at-end", f"{sid} still in flight at end", sim=sid)
-        elif result[0] == "exc" and result[1] == "SimulationError" and "sub-step" in result[2]:
-            named = [sid for sid in exp_loop if f"Simulator {sid} " in result[2]]
+        elif result[0] == "exc" and result[1] == "SimulationError" and (
+                _names(result[2], exp_loop) or _looks_like_loop_guard(result[2])):
+            # the loop guard: a SimulationError naming a simulator with an over-limit demand
+            # (recognised by that, not by the wording of the message)
+            named = _names(result[2], exp_loop)
             if not named:
                 self.add("C09", "loop-interrupted",
                          f"run() stopped with the loop guard ({result[2][:120]}) but no named "
@@ -516,6 +519,16 @@ class Monitor:
                              f"{sid} lost demanded step(s) {lost[:3]}: run() aborted with "
                              f"{_outcome_kind(result)}", sim=sid, cls=cls)
         return self.viol
+
+
+def _names(msg, sids):
+    import re
+    return [sid for sid in sids if re.search(r"(?<![A-Za-z0-9_])" + re.escape(sid) + r"(?![A-Za-z0-9_])", msg)]
+
+
+def _looks_like_loop_guard(msg):
+    low = msg.lower()
+    return "sub-step" in low or "max_loop_iterations" in low or "infinite loop" in low
 
 
 def _outcome_kind(result):
